@@ -55,14 +55,14 @@ CHECKS = {
  },
  "C14": {
   "category": "exploration",
-  "text": "Seeded simulation of 2-4 logical clients sharing one Environment: their scripts of public-API calls (construction, typing, simplify, substitute MGS/MSS with several maps, analyses, logic detection, size with each measure, HR/SMT-LIB printing and parsing, nnf/cnf/prenex/aig, Boolean qelim, FreshSymbol, EagerModel, long-lived parser / model / substitution-dict objects, factory queries around add_generic_solver) over a pool of formulas sharing sub-DAGs are interleaved by the tape at API-call granularity. Sequential specification: every result equals, modulo AC order / array-assignment order / fresh names, the result of the same call alone in a brand-new Environment; repeating a call without fresh symbols returns the identical object. Sampling, not proof.",
+  "text": "Seeded simulation of 2-4 logical clients sharing one Environment: their scripts of public-API calls (construction, typing, simplify, substitute MGS/MSS with several maps and with supplied function interpretations, analyses, logic detection, size with each measure, HR/SMT-LIB printing and parsing, nnf/cnf/prenex/aig, Boolean qelim, FreshSymbol, EagerModel, long-lived parser / model / substitution-dict objects, factory queries around add_generic_solver) over a pool of formulas sharing sub-DAGs are interleaved by the tape at API-call granularity. Sequential specification: every result equals, modulo AC order / array-assignment order / fresh names, the result of the same call alone in a brand-new Environment; repeating a call without fresh symbols returns the identical object. Sampling, not proof.",
   "design_ref": "DESIGN.md section 4 (C14)",
   "note": "Trusted: the canonical key (dsim/canon.py) as the allowed equality; printed text is compared after re-parsing (SMT-LIB) or as a token multiset (HR), which is looser than textual equality. User symbols whose names a fresh-name template could produce are declared first in both environments.",
   "technique": "deterministic simulation: tape-scheduled interleaving of client call scripts on shared mutable state, fresh-environment reference per call, minimisation + exact replay",
  },
  "C15": {
   "category": "fault_enumeration",
-  "text": "Twin-environment simulation: two environments receive the same seeded history of public-API calls (the C14 catalogue, scripts on a long-lived parser, script and tracking-solver objects); at tape-chosen points one of the natural errors the statement lists (ill-typed construction / substitution, unsupported operator via a custom node type under any service, undefined symbol, malformed / truncated / failing-stream input, unsupported command, symbol redefinition, solver conversion error or 'unknown' inside a one-shot query) is provoked on the first twin only, at a tape-chosen position of the traversal. Every later result, including re-attempts of the same failing call on both twins, must agree modulo AC order and fresh names. Sampling, not proof.",
+  "text": "Twin-environment simulation: two environments receive the same seeded history of public-API calls (the C14 catalogue, scripts on a long-lived parser, script and tracking-solver objects); at tape-chosen points one of the natural errors the statement lists (ill-typed construction / substitution, unsupported operator via a custom node type under any service, undefined symbol, malformed / truncated / failing-stream input or solver answer, unsupported command, symbol redefinition, solver conversion error or 'unknown' inside a one-shot query) is provoked on the first twin only, at a tape-chosen position of the traversal. Every later result, including re-attempts of the same failing call on both twins, must agree modulo AC order and fresh names. Sampling, not proof.",
   "design_ref": "DESIGN.md section 4 (C15)",
   "note": "Trusted: canonical key, the BruteSolver stub. Only natural errors are injected (no asynchronous exceptions). Unobservable leftovers (ill-typed node in the table, consumed ids / fresh names) are not violations. Known finding F14 (symbol declared by a failed parse survives) is listed in known_findings.json.",
   "technique": "deterministic simulation with fault injection: twin (faulty / fault-free) runs of one seeded call history, natural-error faults at seeded traversal positions, differential oracle, minimisation + exact replay",
